@@ -1,0 +1,52 @@
+//! Verification hooks of the build layer (cargo feature `verif_hooks`; lives inside `build` to
+//! see its private items). Read-only views plus named crash points; nothing here changes the
+//! behaviour of a normal run (a crash point only fires when `LALRPOP_VERIF_CRASH_AT` names it).
+#![allow(missing_docs, dead_code)]
+
+use std::io;
+use std::path::Path;
+
+/// The `// sha3: …` line `process_file_into` writes (and `needs_rebuild` expects) for this file.
+pub fn hash_line(lalrpop_file: &Path) -> io::Result<String> {
+    super::hash_file(lalrpop_file)
+}
+
+/// The `// auto-generated: "lalrpop x.y.z"` line.
+pub fn version_header() -> &'static str {
+    super::LALRPOP_VERSION_HEADER
+}
+
+/// The result of `needs_rebuild` (`Ok(true)`, `Ok(false)` or the io error kind).
+pub fn needs_rebuild(lalrpop_file: &Path, rs_file: &Path) -> String {
+    match super::needs_rebuild(lalrpop_file, rs_file) {
+        Ok(b) => format!("ok {b}"),
+        Err(e) => format!("err {:?}", e.kind()),
+    }
+}
+
+/// Names of the crash points in `process_file_into`, in program order.
+pub const CRASH_POINTS: &[&str] = &[
+    "after_needs_rebuild",
+    "after_remove",
+    "after_generate",
+    "after_create",
+    "after_version_line",
+    "after_hash_line",
+    "after_body",
+    "after_rename",
+];
+
+/// Kills the process (SIGABRT, no unwinding, no destructors) when the environment variable
+/// `LALRPOP_VERIF_CRASH_AT` equals `name`. `name@stem` restricts it to the grammar file whose
+/// stem is `stem`.
+pub fn crash_point(name: &str, lalrpop_file: &Path) {
+    if let Ok(want) = std::env::var("LALRPOP_VERIF_CRASH_AT") {
+        let stem = lalrpop_file
+            .file_stem()
+            .and_then(|s| s.to_str())
+            .unwrap_or("");
+        if want == name || want == format!("{name}@{stem}") {
+            std::process::abort();
+        }
+    }
+}
